@@ -6,6 +6,7 @@ the macros of the multiplication (every equation exact), doubles it with one `ad
 diagonal with a second chain; the carry out of the last `adcs` is dropped, and is zero because `a² < 2^768`.
 -/
 import JediVerif.Proofs.A64ProofsMul
+import Mathlib.Tactic.NormNum
 
 set_option linter.unusedSimpArgs false
 
@@ -14,6 +15,14 @@ open Lean Meta Simp
 open Jedi.Impl (val WF val_cons val_nil val_lt val_inj)
 open Jedi.X86 (limbs limbs_six limbs_twelve limbs_length limbs_WF Hide Hide.mk Hide.out ea_toNat)
 open Jedi.Gen.AsmA64
+
+set_option exponentiation.threshold 800 in
+/-- a square of a 384-bit number fits 768 bits: a carry out of the top word is zero -/
+theorem sqr_no_carry {R A c : Nat} (h : R + 2 ^ 768 * c = A * A) (hA : A < 2 ^ 384) : c = 0 ∧ R = A * A := by
+  have h1 : A * A ≤ (2 ^ 384 - 1) * (2 ^ 384 - 1) := Nat.mul_le_mul (by omega) (by omega)
+  have h2 : (2 ^ 384 - 1) * (2 ^ 384 - 1) < 2 ^ 768 := by norm_num
+  generalize A * A = Q at *
+  omega
 
 /-! ## `bigint_768_square`: symbolic execution, cut into pieces -/
 
@@ -290,7 +299,7 @@ theorem bigint_768_square_run (s : State) (pr pa : Word)
     have e62 := mulcarry64_spec hl62 hh63 ht64 e57.2
     have e65 := rowend_spec ht65 e62.2
     have e67 := awc_spec l7 l7 false; rw [← ht67] at e67
-    simp only [Bool.toNat_false, Nat.add_zero, hz0] at e67
+    simp only [Bool.toNat_false, Nat.add_zero, Nat.zero_add, hz0] at e67
     have e68 := awc_spec t10.val t10.val t67.c; rw [← ht68] at e68
     have e69 := awc_spec t17.val t17.val t68.c; rw [← ht69] at e69
     have e70 := awc_spec t29.val t29.val t69.c; rw [← ht70] at e70
@@ -301,10 +310,12 @@ theorem bigint_768_square_run (s : State) (pr pa : Word)
     have e75 := awc_spec t64.val t64.val t74.c; rw [← ht75] at e75
     have e76 := awc_spec t65.val t65.val t75.c; rw [← ht76] at e76
     have e77 := awc_spec (0 : Word) (0 : Word) t76.c; rw [← ht77] at e77
-    simp only [Bool.toNat_false, Nat.add_zero, hz0] at e77
+    simp only [Bool.toNat_false, Nat.add_zero, Nat.zero_add, hz0] at e77
+    have z77 : t77.c.toNat = 0 := by have := Bool.toNat_le t76.c; clear * - e77 this; omega
+    simp only [z77, Nat.mul_zero, Nat.add_zero] at e77
     have e78 := mul_spec a0 a0; rw [← hl78, ← hh79] at e78
     have e80 := awc_spec t67.val h79 false; rw [← ht80] at e80
-    simp only [Bool.toNat_false, Nat.add_zero, hz0] at e80
+    simp only [Bool.toNat_false, Nat.add_zero, Nat.zero_add, hz0] at e80
     have e81 := mul_spec a1 a1; rw [← hl81, ← hh82] at e81
     have e83 := awc_spec t68.val l81 t80.c; rw [← ht83] at e83
     have e84 := awc_spec t69.val h82 t83.c; rw [← ht84] at e84
@@ -327,13 +338,7 @@ theorem bigint_768_square_run (s : State) (pr pa : Word)
           * val (2 ^ 64) [a0.toNat, a1.toNat, a2.toNat, a3.toNat, a4.toNat, a5.toNat] := by
       simp only [val_cons, val_nil]
       linear_combination 2 * (2 ^ 64 * e6.1 + 2 ^ 128 * e8.1 + 2 ^ 192 * e11.1 + 2 ^ 256 * e14 + 2 ^ 192 * e15.1 + 2 ^ 256 * e18.1 + 2 ^ 320 * e23.1 + 2 ^ 384 * e26 + 2 ^ 256 * e27.1 + 2 ^ 320 * e30.1 + 2 ^ 384 * e35.1 + 2 ^ 448 * e40.1 + 2 ^ 512 * e43 + 2 ^ 320 * e44.1 + 2 ^ 384 * e47.1 + 2 ^ 448 * e52.1 + 2 ^ 512 * e57.1 + 2 ^ 576 * e62.1 + 2 ^ 640 * e65) + 2 ^ 64 * e67 + 2 ^ 128 * e68 + 2 ^ 192 * e69 + 2 ^ 256 * e70 + 2 ^ 320 * e71 + 2 ^ 384 * e72 + 2 ^ 448 * e73 + 2 ^ 512 * e74 + 2 ^ 576 * e75 + 2 ^ 640 * e76 + 2 ^ 704 * e77 + e78 + 2 ^ 64 * e80 + 2 ^ 128 * e81 + 2 ^ 128 * e83 + 2 ^ 192 * e84 + 2 ^ 256 * e85 + 2 ^ 256 * e87 + 2 ^ 320 * e88 + 2 ^ 384 * e89 + 2 ^ 384 * e91 + 2 ^ 448 * e92 + 2 ^ 512 * e93 + 2 ^ 512 * e95 + 2 ^ 576 * e96 + 2 ^ 640 * e97 + 2 ^ 640 * e99 + 2 ^ 704 * e100
-    have hlt := Nat.mul_lt_mul'' hA hA
-    generalize val (2 ^ 64) [a0.toNat, a1.toNat, a2.toNat, a3.toNat, a4.toNat, a5.toNat]
-      * val (2 ^ 64) [a0.toNat, a1.toNat, a2.toNat, a3.toNat, a4.toNat, a5.toNat] = P at key hlt ⊢
-    generalize val (2 ^ 64) [l78.toNat, t80.val.toNat, t83.val.toNat, t84.val.toNat, t87.val.toNat, t88.val.toNat, t91.val.toNat, t92.val.toNat, t95.val.toNat, t96.val.toNat, t99.val.toNat, t100.val.toNat] = V at key ⊢
-    have := Bool.toNat_le t100.c
-    generalize t100.c.toNat = c at *
-    omega
+    exact (sqr_no_carry key hA).2
   · intro k hk1 hk2
     simp (disch := (clear * - hk1 hk2 room2; omega)) only [setMem_ne]
 
